@@ -38,6 +38,16 @@ type HIDIConfigRaw struct {
 	} `toml:"HIDI"`
 }
 
+// unmarshalTOML reports a panic of the TOML decoder (go-toml v2.0.3 has several on malformed documents) as an error
+func unmarshalTOML(data []byte, v interface{}) (err error) {
+	defer func() {
+		if r := recover(); r != nil {
+			err = fmt.Errorf("toml decoder failure: %v", r)
+		}
+	}()
+	return toml.Unmarshal(data, v)
+}
+
 func LoadHIDIConfig(path string) (HIDIConfig, error) {
 	data, err := os.ReadFile(path)
 	if err != nil {
@@ -45,7 +55,7 @@ func LoadHIDIConfig(path string) (HIDIConfig, error) {
 	}
 
 	var rawConfig HIDIConfigRaw
-	err = toml.Unmarshal(data, &rawConfig)
+	err = unmarshalTOML(data, &rawConfig)
 	if err != nil {
 		return HIDIConfig{}, err
 	}
